@@ -738,7 +738,12 @@ fn absorb(agg: &mut Agg, subseed: u64, h: &History, rep: &RunReport, oracle: &Or
         if inj > 0 {
             bump(&mut agg.fault_kinds, "fired:transient-read-error", inj as u64);
             for i in res["injected"].as_array().unwrap() {
-                bump(&mut agg.fault_kinds, &format!("fired:transient@{}", i["site"].as_str().unwrap_or("")), 1);
+                if i["site"] == "panic" {
+                    bump(&mut agg.fault_kinds, "fired:injected-panic-inside-codegen", 1);
+                    bump(&mut agg.fault_kinds, &format!("fired:injected-panic@{}", i["path"].as_str().unwrap_or("")), 1);
+                } else {
+                    bump(&mut agg.fault_kinds, &format!("fired:transient@{}", i["site"].as_str().unwrap_or("")), 1);
+                }
             }
         }
         // outcomes by kind, and "valid call after a failure inside a critical section"
